@@ -26,7 +26,7 @@ type c11List struct {
 
 func c11Lists() []c11List {
 	one := []string{"a", "e1", "e10", "ab", "a/b", "a/descr", "a_b", "a:b", "a=b", "a=b=c", "a b", "a[b]", "a]", "b", "a.b", "a+b"}
-	two := []string{"a", "b", "c", "a_b", "b_c", "a/b", "a b"}
+	two := []string{"a", "b", "c", "a_b", "b_c", "a/b", "b/c", "a b"}
 	three := []string{"a", "b", "a_b", "b_a"}
 	if Tier() == "thorough" {
 		two = append(two, "a:b", "a=b", "a[b]", "e1", "e10")
@@ -363,6 +363,67 @@ func runC11() int {
 	}
 	close(pch)
 	pwg.Wait()
+	// one intent stores p and q, then it is deleted: both must leave the intended store and the device (the old
+	// content of an intent is read back through path sets and indexes keyed by joined path elements)
+	sameIntent := 0
+	{
+		sch := make(chan pairJob, 64)
+		var swg sync.WaitGroup
+		for i := 0; i < 16; i++ {
+			swg.Add(1)
+			go func() {
+				defer swg.Done()
+				wc := NewWorkerCache()
+				defer wc.Close()
+				for pj := range sch {
+					p, q := paths[pj.a], paths[pj.b]
+					cc, err := wc.Get()
+					if err != nil {
+						continue
+					}
+					fpq := &Fragment{Name: "pq", Leaves: []Leaf{{P: p.Leaf, V: "vp"}, {P: q.Leaf, V: "vq"}}}
+					if p.List.Name == "dk" {
+						// m is mandatory in dk
+						fpq.Leaves = []Leaf{{P: p.Leaf, V: "vp"}, {P: q.Leaf, V: "vq"}}
+					}
+					w, err := NewWorld(u, cc, nil, WorldOpts{Fragments: map[string]*Fragment{"pq": fpq}})
+					if err != nil {
+						continue
+					}
+					cas := map[string]any{"first": p.Leaf.String(), "second": q.Leaf.String()}
+					sig := fmt.Sprintf("same-intent:%s:%s:with-%s", p.List.Name, valueClass(p.Vals), valueClass(q.Vals))
+					o1 := w.Apply(single(IntentSpec{Owner: "A", Prio: 10, Frag: "pq"}))
+					o2 := w.Apply(single(IntentSpec{Owner: "A", Prio: 10, Delete: true}))
+					if o1.Rejected() || o2.Rejected() {
+						rep.Add(&Violation{Clause: "same-intent-rejected", Sig: "rejected-" + sig, Engine: "E3-inputs", Case: cas,
+							Detail: fmt.Sprintf("one intent with %s and %s, then its deletion: set rejected=%v delete rejected=%v (err=%v intentErrors=%v)", p.Leaf, q.Leaf, o1.Rejected(), o2.Rejected(), o2.Err, intentErrors(o2))})
+					} else {
+						if d := w.Dev.Snapshot(); len(d) != 0 {
+							rep.Add(&Violation{Clause: "same-intent-device", Sig: "device-" + sig, Engine: "E3-inputs", Case: cas,
+								Detail: fmt.Sprintf("an intent with %s and %s was deleted, the device still holds %v", p.Leaf, q.Leaf, d)})
+						}
+						if in, err := w.ReadIntended(); err != nil || len(in) != 0 {
+							rep.Add(&Violation{Clause: "same-intent-intended", Sig: "intended-" + sig, Engine: "E3-inputs", Case: cas,
+								Detail: fmt.Sprintf("an intent with %s and %s was deleted, the intended store still holds %v (err=%v)", p.Leaf, q.Leaf, in, err)})
+						}
+					}
+					w.Close()
+					mu.Lock()
+					sameIntent++
+					mu.Unlock()
+				}
+			}()
+		}
+		for i, p := range paths {
+			for j := i + 1; j < len(paths); j++ {
+				if p.List.Name == paths[j].List.Name {
+					sch <- pairJob{i, j}
+				}
+			}
+		}
+		close(sch)
+		swg.Wait()
+	}
 	// keys split between request path and JSON body
 	splitEvals := 0
 	func() {
@@ -405,7 +466,8 @@ func runC11() int {
 		}
 	}()
 	return rep.Finish(map[string]any{
-		"evaluations":         evals + pairWrites + splitEvals,
+		"evaluations":         evals + pairWrites + splitEvals + sameIntent,
+		"same_intent_pair_evaluations": sameIntent,
 		"single_path_evaluations": evals,
 		"pair_write_evaluations":  pairWrites,
 		"split_key_evaluations":   splitEvals,
